@@ -369,4 +369,17 @@ theorem reachable_ginv {caps : List Nat} {progs : List (List Op)} {s : State}
   | init => exact init_ginv caps progs
   | next ch _ hs ih => exact apply_ginv ih ch hs
 
+/-- running a schedule from a reachable state stays reachable -/
+theorem reachable_runSched {s0 s1 s : State} (h0 : Reachable s0 s1) :
+    ∀ (l : List Choice), runSched s1 l = some s → Reachable s0 s := by
+  intro l
+  induction l generalizing s1 with
+  | nil => intro h; simp only [runSched] at h; cases h; exact h0
+  | cons ch rest ih =>
+    intro h
+    simp only [runSched] at h
+    cases ha : apply s1 ch with
+    | none => rw [ha] at h; cases h
+    | some s2 => rw [ha] at h; exact ih (Reachable.next ch h0 ha) h
+
 end LlgoVerif.Chan
